@@ -240,6 +240,17 @@ class SInt(Sym):
     def __neg__(self):
         return SInt(z3.simplify(-self.z))
 
+    def __mod__(self, o):
+        # Python's % takes the sign of the divisor, SMT-LIB's mod is non-negative: they agree for a positive divisor
+        if isinstance(o, int) and not isinstance(o, bool) and o > 0:
+            return SInt(z3.simplify(self.z % z3.IntVal(o)))
+        raise EngineError("symbolic % with a divisor that is not a positive literal")
+
+    def __floordiv__(self, o):
+        if isinstance(o, int) and not isinstance(o, bool) and o > 0:
+            return SInt(z3.simplify(self.z / z3.IntVal(o)))
+        raise EngineError("symbolic // with a divisor that is not a positive literal")
+
     def __abs__(self):
         return SInt(z3.simplify(z3.If(self.z >= 0, self.z, -self.z)))
 
